@@ -21,7 +21,7 @@ DROP = "__DROP__"
 class Scenario:
     def __init__(self, name, backend, conns, script, config=None, storage_options=None,
                  allow_drop=(), stall=(), setup=None, horizon=50.0, rate_limits=None, max_limit=6000,
-                 allow_timer_deviation=True, finish=None, meta=None, connect=None, job_priority=None):
+                 allow_timer_deviation=True, finish=None, meta=None, connect=None, job_priority=None, policy="actor"):
         self.name = name
         self.backend = backend
         self.conns = conns  # [(name, addr)]
@@ -39,6 +39,10 @@ class Scenario:
         self.meta = meta or {}
         self.connect = connect            # optional hook(world, name, addr) -> Conn (e.g. a connection served by a second worker)
         self.job_priority = job_priority  # optional list of job kinds: the default schedule serves jobs of earlier kinds first
+        # base schedule the deviations are counted from: "actor" = run-to-completion (keep serving the task whose job completed last,
+        # deliver the next frame only when nothing is pending); "fair" = deliver every frame as early as possible and serve the
+        # pending jobs round-robin over tasks (least recently served first), i.e. maximal interleaving of the handlers
+        self.policy = policy
 
 
 class Execution:
@@ -47,6 +51,15 @@ class Execution:
 
 def _label(a):
     return ":".join(str(x) for x in a)
+
+
+def _next_frame(w, pending):
+    for cn, fr in pending:
+        c = w.conns[cn]
+        if c.dropped or c.closed_by_relay is not None:
+            continue
+        return cn
+    return None
 
 
 def run(scn, prefix, keep_trace=False, strict=True):
@@ -71,6 +84,7 @@ def run(scn, prefix, keep_trace=False, strict=True):
         pending = list(scn.script)
         pos = 0
         last_actor = None
+        served = {}
         t_end = loop.time() + scn.horizon
         guard = 0
         while True:
@@ -83,6 +97,11 @@ def run(scn, prefix, keep_trace=False, strict=True):
             # ---- default action ---------------------------------------------------------------
             if not boundary or loop.has_ready():
                 default = ("run",)
+            elif scn.policy == "fair" and _next_frame(w, pending) is not None:
+                default = ("frame", _next_frame(w, pending))
+            elif jobs and scn.policy == "fair":
+                k = min(range(len(jobs)), key=lambda i: (served.get(jobs[i].actor, -1), i))
+                default = ("job", k)
             elif jobs:
                 # keep serving the actor (asyncio task) whose job completed last, if it has another one pending: letting another
                 # actor run for many steps while this one waits then costs ONE deviation (a preemption), not one per step
@@ -176,6 +195,7 @@ def run(scn, prefix, keep_trace=False, strict=True):
                 loop.run_one_handle()
             elif k == "job":
                 last_actor = jobs[act[1]].actor
+                served[last_actor] = guard
                 loop.complete_job(jobs[act[1]])
             elif k == "frame":
                 cn = act[1]
